@@ -154,14 +154,25 @@ Theorem C10_key_range : forall order : Z,
 Proof. exact key_range_statement. Qed.
 Print Assumptions C10_key_range.
 
-(* Key(public_pair=(x, y)): accepted iff on the curve, otherwise InvalidPublicPairError; an off-curve
-   uncompressed SEC blob gets through sec_to_public_pair and is refused by Key.from_sec *)
+(* Key(public_pair=(x, y)): accepted iff on the curve AND both coordinates in [0, p); everything else
+   raises InvalidPublicPairError; whatever is accepted is the pair itself, on the curve and reduced *)
 Theorem C10_public_pair_range : forall p a b x y : Z,
-  (contains_point p a b x y = true -> key_public p a b (x, y) = Ret (x, y)) /\
-  (contains_point p a b x y = false -> key_public p a b (x, y) = Raise E_PUBPAIR).
+  (contains_point p a b x y = true /\ 0 <= x < p /\ 0 <= y < p -> key_public p a b (x, y) = Ret (x, y)) /\
+  (~ (contains_point p a b x y = true /\ 0 <= x < p /\ 0 <= y < p) -> key_public p a b (x, y) = Raise E_PUBPAIR) /\
+  (forall q, key_public p a b (x, y) = Ret q ->
+     q = (x, y) /\ contains_point p a b x y = true /\ 0 <= x < p /\ 0 <= y < p).
 Proof. exact key_public_statement. Qed.
 Print Assumptions C10_public_pair_range.
 
+(* the unreduced names (x+p, y), (x, y+p), (x, y-p) of a point are refused (they satisfy the curve
+   equation mod p, so the on-curve test alone would let them through: a second key for one point) *)
+Theorem C10_unreduced_pair_refused : forall p a b x y : Z, 0 < p -> 0 <= x < p -> 0 <= y < p ->
+  key_public p a b (x + p, y) = Raise E_PUBPAIR /\ key_public p a b (x, y + p) = Raise E_PUBPAIR /\
+  key_public p a b (x, y - p) = Raise E_PUBPAIR.
+Proof. exact unreduced_pair_refused. Qed.
+Print Assumptions C10_unreduced_pair_refused.
+
+(* an off-curve uncompressed SEC blob gets through sec_to_public_pair and is refused by Key.from_sec *)
 Theorem C10_off_curve_sec_refused : forall (p a b : Z) (sec : bytes) (x y : Z),
   sec_to_public_pair p a b sec true = Ret (x, y) -> contains_point p a b x y = false ->
   key_from_sec p a b sec = Raise E_PUBPAIR.
